@@ -159,9 +159,108 @@ def glue_polarity(ctx, py: PyRepo):
         n += 1
 
 
+def cnf_shape(ctx, py: PyRepo):
+    """advertised shape of to_cnf, by induction on the recursion: assuming every recursive call returns a term in CNF, every return
+    does.  Shapes: LIT (variable) < CLAUSE (tree of ORs over literals) < CNF ; AND = CNF whose root is a conjunction.  A CNF term whose
+    root is tested not to be a conjunction is a CLAUSE."""
+    from ..core.pyeval import PyEval, show
+    fn = py.method('Tautology', 'to_cnf')
+    where = py.where('tautology', fn)
+    SELF = ('param', 'self')
+    TERM = ('param', fn.args.args[1].arg)
+    LE_CLAUSE = {'LIT', 'CLAUSE'}
+    LE_CNF = {'LIT', 'CLAUSE', 'AND', 'CNF'}
+
+    def shape(v, conds):
+        facts = {c: b for c, b in conds}
+
+        def isinst(x, cls):
+            return facts.get(('call', ('name', 'isinstance'), (x, ('name', cls)), ()))
+
+        if v == TERM:
+            return 'LIT' if isinst(v, 'CFVar') else 'ANY'
+        if v[0] == 'item' and v[2] == 0 and v[1][0] == 'call' and v[1][1] == ('attr', SELF, 'to_cnf'):
+            a = isinst(v, 'CFAnd')
+            return 'AND' if a is True else ('CLAUSE' if a is False else 'CNF')
+        if v[0] == 'attr' and v[2] in ('left', 'right'):
+            base = shape(v[1], conds)
+            return {'AND': 'CNF', 'CLAUSE': 'CLAUSE'}.get(base, 'ANY')
+        if v[0] == 'call' and v[1] == ('name', 'CFAnd') and len(v[2]) == 2:
+            return 'AND' if all(shape(x, conds) in LE_CNF for x in v[2]) else 'ANY'
+        if v[0] == 'call' and v[1] == ('name', 'CFOr') and len(v[2]) == 2:
+            return 'CLAUSE' if all(shape(x, conds) in LE_CLAUSE for x in v[2]) else 'ANY'
+        return 'ANY'
+
+    n = 0
+    for p in PyEval().paths(fn):
+        if p.end[0] != 'return':
+            continue
+        v = p.end[1]
+        if not (v[0] == 'tuple' and len(v[1]) == 3):
+            ctx.ob('cnf-shape', f'return{n}', False, 'to_cnf returns something other than (term, proof, proof)', where)
+            n += 1
+            continue
+        sh = shape(v[1][0], p.conds)
+        ctx.ob('cnf-shape', f'return{n}:{show(v[1][0])[:50]}', sh in LE_CNF,
+               f'to_cnf returns {show(v[1][0])[:90]}, which is not guaranteed to be in conjunctive normal form: a disjunction may keep a '
+               f'conjunction below it (only a term whose root was tested not to be a conjunction is a clause; distributing once is not '
+               f'enough when the conjunct has more than two members)', where, facts={'shape': sh})
+        n += 1
+        # the recursive calls of a distribution branch must be on the distributed term
+    ctx.analysed['to_cnf returning paths'] = n
+
+
+def fold_direction(ctx, py: PyRepo):
+    """the conjunction of trivial-clause proofs must be nested like clause_conjunctionto_pattern nests the clauses (a right fold): an
+    accumulator started on the last two and extended by PREPENDING must walk the remaining prefix from right to left"""
+    import ast as _ast
+    fn = py.method('Tautology', 'start_resolution_algorithm')
+    where = py.where('tautology', fn)
+    tgt = py.function('tautology', 'clause_conjunctionto_pattern')
+    right_nested = any(isinstance(n, _ast.Call) and isinstance(n.func, _ast.Name) and n.func.id == 'foldr_op' for n in _ast.walk(tgt))
+    left_nested = any(isinstance(n, _ast.Call) and isinstance(n.func, _ast.Name) and n.func.id == 'foldl_op' for n in _ast.walk(tgt))
+    ctx.require(right_nested != left_nested, 'clause_conjunctionto_pattern: cannot tell how the conjunction is nested')
+    loops = [n for n in _ast.walk(fn) if isinstance(n, _ast.For) and isinstance(n.target, _ast.Name)]
+    found = 0
+    for lp in loops:
+        x = lp.target.id
+        for st in lp.body:
+            if isinstance(st, _ast.Assign) and isinstance(st.targets[0], _ast.Name) and isinstance(st.value, _ast.Call) \
+                    and _ast.unparse(st.value.func) == 'self.and_intro' and len(st.value.args) == 2:
+                acc = st.targets[0].id
+                a0, a1 = _ast.unparse(st.value.args[0]), _ast.unparse(st.value.args[1])
+                if {a0, a1} != {x, acc}:
+                    continue
+                found += 1
+                prepend = a0 == x
+                it = lp.iter
+                rev = isinstance(it, _ast.Call) and isinstance(it.func, _ast.Name) and it.func.id == 'reversed'
+                seq = it.args[0] if rev else it
+                sl = _ast.unparse(seq.slice) if isinstance(seq, _ast.Subscript) else None
+                inits = [n for n in _ast.walk(fn) if isinstance(n, _ast.Assign) and isinstance(n.targets[0], _ast.Name) and n.targets[0].id == acc
+                         and n.lineno < lp.lineno]
+                init = _ast.unparse(inits[-1].value) if inits else ''
+                base = _ast.unparse(seq.value) if isinstance(seq, _ast.Subscript) else _ast.unparse(seq)
+                if right_nested:
+                    ok = prepend and rev and sl == ':-2' and init == f'self.and_intro({base}[-2], {base}[-1])'
+                    want = f'start from and_intro({base}[-2], {base}[-1]) and prepend the elements of reversed({base}[:-2])'
+                else:
+                    ok = (not prepend) and (not rev) and sl == '2:' and init == f'self.and_intro({base}[0], {base}[1])'
+                    want = f'start from and_intro({base}[0], {base}[1]) and append the elements of {base}[2:]'
+                ctx.ob('fold-direction', f'start_resolution_algorithm/{acc}', ok,
+                       f'the proofs are combined as `{_ast.unparse(st)}` over `{_ast.unparse(it)}` starting from `{init}`; to prove the clauses '
+                       f'conjoined in the order clause_conjunctionto_pattern nests them the loop must {want} - with four or more clauses the '
+                       f'conclusion is a reordered conjunction', where)
+    ctx.require(found >= 1, 'start_resolution_algorithm: the fold over the trivial-clause proofs was not found')
+
+
 def run(ctx):
     py = PyRepo.get()
     glue_polarity(ctx, py)
+    cnf_shape(ctx, py)
+    fold_direction(ctx, py)
+    ctx.floor('cnf-shape', 5)
+    ctx.floor('fold-direction', 1)
     ctx.floor('glue-polarity', 4)
     fn = py.method('Tautology', 'resolution_algorithm')
     where = py.where('tautology', fn)
